@@ -1,8 +1,8 @@
-(* _bipartite_match (Gen/MatchGen.v: gen_bipartite_match, gen_bipartite_match_recurse) against Model/Matching.v.
-   PROVED for all graphs: the greedy initialisation (the first two statements) leaves, at the address of `matching`, exactly
-   [greedy g], with the rest of the heap untouched ([bipartite_match_greedy_tie]).
-   NOT proved (see the report): the phase loop and the closure `recurse`; for them this file only has closed
-   evaluations of the WHOLE translated function against [bipartite_match] on example graphs. *)
+(* _bipartite_match (Gen/MatchGen.v: gen_bipartite_match, gen_bipartite_match_recurse) against Model/Matching.v, part 0:
+   shared tactics / environment layout, and the greedy initialisation (the first two statements) which leaves, at the
+   address of `matching`, exactly [greedy g], with the rest of the heap untouched ([bipartite_match_greedy_tie]).
+   The phase loop and the closure `recurse` are tied in Proofs/HKTieRec.v, HKTieLayer.v, HKTiePhases.v; the complete
+   theorem is in Proofs/HKTie.v. The closed evaluations at the end of this file are only sanity examples. *)
 From Coq Require Import String.
 From Coq Require Import List Bool Arith ZArith QArith Qabs Qminmax Lia.
 From ME Require Import Model.Prelude Model.Dict Model.Matching Model.Events Model.HeapPy Gen.MatchGen Model.HeapPyMatch Proofs.HeapPyLemmas.
